@@ -567,6 +567,7 @@ func cfgShards(prop string, body func(r *cfgRun, f Fields)) []engine.Shard {
 							return
 						}
 						seen[k] = struct{}{}
+						engine.Progress.Add(1)
 						body(r, f)
 						r.remember(f)
 						if len(st.Samples) < 1 && len(seen) == 1000 {
